@@ -101,6 +101,8 @@ def check_case(case):
         spec["pc_first"] = True
     if case.get("bounce"):
         spec["bounce"] = case["bounce"]
+    if case.get("pc_type"):
+        spec["pc_type"] = case["pc_type"]
     if case.get("reconf"):   # every configured component was configured before, differently; the later call replaces the earlier one
         for c in spec["comps"]:
             if c.get("pc") is not None:
@@ -130,6 +132,11 @@ def check_case(case):
         pass
     if s.get_sys_phases() != dict(phases):
         res.v(("C06.rejected-phase-definition-took-effect",), "phases now %r" % (s.get_sys_phases(),))
+    # handing the phases dict back unchanged is a no-op (get_sys_phases() returns the live object)
+    s.set_sys_phases(s.get_sys_phases())
+    if s.get_sys_phases() != dict(phases):
+        res.v(("C06.set-sys-phases-of-own-dict",), "after set_sys_phases(get_sys_phases()) the phases are %r" % (s.get_sys_phases(),))
+        s.set_sys_phases(dict(phases))
     df, _ = quiet_call(s.solve, ta=-15.0, energy=True)
     configured = any(a is not None for a in case["assign"])
     sleepers = False
@@ -256,6 +263,8 @@ def gen_cases(tier):
                     yield dict(f=f, pal=pal, srs=0.37, assign=list(assign), ph3=ph3)
                     if not ph3 and n == 1 and any(isinstance(a, dict) for a in assign):
                         yield dict(f=f, pal=pal, srs=0.37, assign=list(assign), ph3=ph3, negfile=True)
+                        yield dict(f=f, pal=pal, srs=0.37, assign=list(assign), ph3=ph3, pc_type="defaultdict")
+                        yield dict(f=f, pal=pal, srs=0.37, assign=list(assign), ph3=ph3, pc_type="counter")
                     if not ph3 and n >= 2 and len(f) == 1 and assign[0] is not None:   # chains with a phase-configured source
                         yield dict(f=f, pal=pal, srs=0.37, assign=list(assign), ph3=ph3, budgets=True)
                     if not ph3 and n == 1:
